@@ -87,7 +87,8 @@ fn gen_prog(t: &mut Tape, st: &mut Stats) -> Prog {
             text.push('\n');
             if t.chance(1, 3) {
                 st.class("non-terminating-program");
-                text = format!(":again emit 9999\n{}goto :again\n", text);
+                // the context of these programs has no goto command: the scripted command does the jump
+                text = format!(":again emit 9999\n{}res gl :again 1000000 0 -\n", text);
             }
             Prog { text, kind: Kind::Nested, on_error: t.flip(), subs }
         }
@@ -346,6 +347,19 @@ fn case_thread(t: &mut Tape, st: &mut Stats) -> Verdict {
         let last_res_line = with_hz(|h| h.trace.iter().rev().find(|e| e.cmd != "on_error").map(|e| e.line + 1));
         let _ = lines;
         if err_line.is_some() && err_line == last_res_line {
+            return Verdict::Pass(None);
+        }
+        // the program may fail by itself (e.g. an unknown command, which leaves no event) at a point the fuel-cut
+        // reference never reached and before the late flag took effect: the same program, not halted, on the same
+        // fuel, then fails at the same line after the same invocations
+        prep(&p);
+        let again = run_text(&p.text, context_for(&p), REF_FUEL * 4, None);
+        let again_line = match &again.result {
+            Err(duckscript::types::error::ScriptError::Runtime(_, Some(m))) => m.line,
+            _ => None,
+        };
+        if err_line.is_some() && again_line == err_line && events() == got {
+            st.class("program-failed-by-itself-before-the-flag-took-effect");
             return Verdict::Pass(None);
         }
         return fail("C13/thread/run-failed", detail("halted run returned an error", json!(format!("{:?}", e))));
